@@ -8,7 +8,7 @@ DIRS="$@"; [ -z "$DIRS" ] && DIRS=$(ls -d seeded/*/ mutants/*.patch 2>/dev/null)
 for d in $DIRS; do
   if [ -d "$d" ]; then id=$(basename "$d"); patch="$d/patch.diff"; prop=${id%%-*};
   else id=$(basename "$d" .patch); patch="$d"; prop=$(grep -o "C[0-9][0-9]" "$d" | head -1); [ -z "$prop" ] && continue; fi
-  out=$(./tools/mut.sh "$patch" "$prop" quick "$BUD" 2>&1)
+  out=$(VERIF_MIN_BUDGET=0 ./tools/mut.sh "$patch" "$prop" quick "$BUD" 2>&1)
   rc=$(echo "$out" | grep -o "mut rc=[0-9]*" | tail -1)
   sum=$(echo "$out" | grep "^$prop quick:" | tail -1)
   if echo "$out" | grep -q "PATCH-DOES-NOT-APPLY"; then sum="PATCH-DOES-NOT-APPLY"; fi
